@@ -38,7 +38,8 @@ class RegexStub:
     X = VERBOSE = 64
     U = UNICODE = 32
     A = ASCII = 256
-    error = Exception
+    class error(Exception):
+        pass
 
     groups = 1                  # attributes of a compiled pattern
     groupindex = {}
@@ -58,10 +59,16 @@ class RegexStub:
     def hits(self, v):
         self._hits[0] = v
 
+    rejects = False          # this engine refuses to compile the pattern (raises its `error`)
+
     def _enter(self, name, kw):
         self.log.append((name, 'timeout' in kw, kw.get('timeout')))
+        if self.rejects:
+            raise self.error("engine rejects the pattern")
 
     def compile(self, pattern, flags=0, **kw):
+        if self.rejects:
+            raise self.error("engine rejects the pattern")
         r = RegexStub(0, self.log, True)
         r._hits = self._hits
         return r
@@ -154,7 +161,7 @@ def timeout_constant(x: int) -> None:
 
 
 def engine_calls(fi: bool, fm: bool, fs: bool, upper: bool, other: bool, no_flags: bool, omit: bool, hits: int,
-                 dt1: float, dt2: float, dt3: float, word_pattern: bool) -> None:
+                 dt1: float, dt2: float, dt3: float, word_pattern: bool, rejects: bool = False) -> None:
     """
     pre: 0 <= hits <= 4 and 0.0 <= dt1 <= 10.0 and 0.0 <= dt2 <= 10.0 and 0.0 <= dt3 <= 10.0
     post: True
@@ -167,12 +174,23 @@ def engine_calls(fi: bool, fm: bool, fs: bool, upper: bool, other: bool, no_flag
         flags = flags.upper()
     stub = RegexStub(hits)
     saved = _install(stub, Clock([dt1, dt2, dt3]))
+    # the engine named `regex` may refuse the pattern; any OTHER engine reachable from the module accepts everything
+    first = getattr(functions, 'regex', None)
+    if rejects and isinstance(first, RegexStub):
+        mine = RegexStub(hits, stub.log)
+        mine.rejects = True
+        functions.regex = mine
+    r = None
     try:
         f = FUNCTIONS[name]
-        if omit:
-            r = f(s, pattern)
-        else:
-            r = f(s, pattern, None if no_flags else flags)
+        try:
+            if omit:
+                r = f(s, pattern)
+            else:
+                r = f(s, pattern, None if no_flags else flags)
+        except Exception:
+            if not rejects:
+                raise
     finally:
         _restore(saved)
     for (what, has, val) in stub.log:
@@ -180,6 +198,9 @@ def engine_calls(fi: bool, fm: bool, fs: bool, upper: bool, other: bool, no_flag
         # (the regex module treats 0 as "expire at once" and a NEGATIVE value as "no timeout")
         assert 0 <= val <= 0.1, "%s passes a timeout that is negative or not small (%s)" % (name, what)
     assert len(stub.log) <= 2, "%s enters the regex engine an unbounded number of times (each with a fresh timeout)" % name
+    if rejects:
+        hlib.done()
+        return
     if name == 'match':
         assert r is None or isinstance(r, str)
     elif name == 'match_groups':
